@@ -206,6 +206,10 @@ type ExecutionPayloadHeader struct {
 }
 
 func (s *ExecutionPayloadHeader) View() *ExecutionPayloadHeaderView {
+	// the field views below point at the struct they are made from: work on a private copy,
+	// so that the tree does not share memory with the caller's header
+	cp := *s
+	s = &cp
 	ed, err := s.ExtraData.View()
 	if err != nil {
 		panic(err)
